@@ -1,7 +1,7 @@
 (** C20 proofs, part 4: bit strings in Fift hex and message addresses. *)
 From Coq Require Import List NArith ZArith Bool Lia Arith.
-From Tongo Require Import Lib.Bits Lib.Res Model.BitString Model.JsonText Model.Json
-  Proofs.Fift Proofs.JsonTextP Proofs.JsonValidP Proofs.JsonP.
+From Tongo Require Import Lib.Bits Lib.Res Model.BitString Model.BitStringD Model.JsonText Model.Json
+  Proofs.Fift Proofs.BitStringW Proofs.BitStringD Proofs.JsonTextP Proofs.JsonValidP Proofs.JsonP.
 Import ListNotations.
 Local Open Scope N_scope.
 
@@ -133,6 +133,33 @@ Proof.
   unfold parse_bitstring, print_bitstring.
   rewrite trim_quotes_of_quote by (apply plain_none_quote, fift_chars_plain).
   apply fift_str_roundtrip.
+Qed.
+
+(* the printed form depends only on the written bits: not on the capacity of
+   the buffer, nor on what the buffer holds past the length *)
+Theorem print_bitstring_bs_spec s : Inv s -> print_bitstring_bs s = Ok (print_bitstring (abs s)).
+Proof.
+  intros HI. unfold print_bitstring_bs. rewrite (to_fift_bs_spec s HI). cbn [bind].
+  unfold print_bitstring, fift_chars. destruct (to_fift (abs s)) as [ds u]. reflexivity.
+Qed.
+
+Lemma written_bs_spec l free : Inv (written_bs l free) /\ abs (written_bs l free) = l.
+Proof.
+  unfold written_bs.
+  destruct (write_bits_ok l (new_bs (length l + free)) (Inv_new _)) as (s' & E & Ha & HI & _).
+  { cbn [len cap new_bs]. lia. }
+  rewrite E. cbn [fst]. rewrite abs_new in Ha. split; [exact HI|exact Ha].
+Qed.
+
+(* a writer-built string prints and parses back the same whatever capacity its
+   buffer was given *)
+Theorem written_bitstring_roundtrip l free :
+  print_bitstring_bs (written_bs l free) = Ok (print_bitstring l)
+  /\ parse_bitstring (print_bitstring l) = Ok l.
+Proof.
+  destruct (written_bs_spec l free) as [HI Ha]. split.
+  - rewrite (print_bitstring_bs_spec _ HI), Ha. reflexivity.
+  - apply bitstring_roundtrip.
 Qed.
 
 Lemma bitstring_shape l : json_number_or_plain_string (print_bitstring l).
